@@ -103,6 +103,11 @@ ObsRet(o, m, res) ==
              o3 == [o2 EXCEPT !.cm[m] = [st |-> "held", ip |-> p.ip, src |-> p.src, dst |-> @.dst, opt |-> @.opt]]
              okS(s, k) == N(o, s) = 0 \/ o3.hold[s][k] <= N(o, s)
          IN V(o3, okS("all", AllKey) /\ okS("ip", p.ip) /\ okS("source", p.src), "LimitExceeded")
+    \* the attempt on domain d was refused for a reason other than the limit (REQUIRETLS not
+    \* satisfiable): the message is not a holder; should the code have taken the permit all the
+    \* same, it may keep it until its delivery ends (tolerated like after a MAIL refusal)
+    [] p.op = "TakeDest" /\ res = "refused" ->
+         [o1 EXCEPT !.cm[m].opt = @ \cup {p.d}]
     [] p.op = "TakeDest" /\ res = "ok" ->
          LET o2 == [Bump(o1, "dest", p.d, 1) EXCEPT !.cm[m].dst = @ \cup {p.d}]
          IN V(o2, N(o, "dest") = 0 \/ o2.hold["dest"][p.d] <= N(o, "dest"), "LimitExceeded")
